@@ -282,6 +282,7 @@ def extra_scenarios(tier, seed):
 
 
 CHECK = PropertyCheck(
+    whole_run_clauses=('evaluator_called_outside_an_evaluation', 'more_than_one_evaluator_call_per_evaluation', 'evaluator_rows_incomplete_or_mislabelled', 'evaluation_without_evaluator_call'),
     prop="C06", trace_module="Trace_C06", drive=drive, model_runs=model_runs, extra_scenarios=extra_scenarios,
     rule=("TLC explores the request machine (function cache) over every call sequence of length L (2 quick, 3 thorough) over "
           "{F batch 1-2, G, FG} x 2 points, x ensemble shapes x weight vectors with zeros x filter configurations (none, sort, CVaR, "
